@@ -12,6 +12,9 @@ LEVEL_TEXT = ("static: decides the two finite tables the semantics consist of: (
 # fifth-round additions
 TECHNIQUE += "; " + 'must-pass-through of the alias lookup before every slot fill, interprocedural guard collection from getenv(LOCALDOMAIN) to the store of the domain list, facts at every end of the search after the last candidate'
 LEVEL_TEXT += " " + '(ORDER) the HOSTALIASES lookup precedes every candidate stored; (ENVDOMAIN) no test of the already configured list lies between LOCALDOMAIN and the store of the domains; (STOP) after the last candidate the search reports no-data or is known to have met no candidate without data.'
+# sixth-round additions
+TECHNIQUE += "; " + 'edge reachability from zero tests of the converted number to the store of sysconfig->ndots'
+LEVEL_TEXT += " " + "(NDOTS) 'options ndots:0' from the system configuration reaches the store like any other value."
 LEVEL_NOTE = "trusts clang CFG + extractor; boundary lengths and string construction are not decided (C01 covers the over-long-name protocol defect)"
 DESIGN_REF = "DESIGN.md §6/C12"
 EXPLANATION = LEVEL_TEXT
@@ -316,7 +319,7 @@ def r_alias(prog, R):
 
 
 def r_ndots(prog, R):
-    r = R.rule("R-C12-NDOTS", "the ndots threshold that orders the candidates is taken from configuration for every legal value, including 0", floor=3, analysis="exact guard (guard_delta) on the stores of channel->ndots")
+    r = R.rule("R-C12-NDOTS", "the ndots threshold that orders the candidates is taken from configuration for every legal value, including 0", floor=4, analysis="exact guard (guard_delta) on the stores of channel->ndots and of sysconfig->ndots")
     # system configuration: guarded by the user's option bit and nothing else (0 is a legal value: 'try the name as-is first, always')
     f = prog.func("ares_sysconfig_apply")
     mf = MustFacts(f, track_calls=False)
@@ -353,6 +356,52 @@ def r_ndots(prog, R):
             r.viol("option ndots 0 accepted", g.name, g.loc(el), "ARES_OPT_NDOTS with ndots = 0 is not stored (guard '%s')" % bad)
         else:
             r.ok("option ndots 0 accepted", g.loc(el))
+    # the reader of `options ndots:N` / RES_OPTIONS stores 0 like any other value: no guard on the converted number excludes it
+    po = prog.func("process_option")
+    mp = MustFacts(po, track_calls=False)
+    st = [(b, i, el) for b, i, el in po.elements() if el["k"] == "asg" and is_field(el["e"]["l"], "ndots", "ares_sysconfig_t")]
+    if r.require(len(st) >= 1, "process_option: store of sysconfig->ndots not found"):
+        import codecrules
+        for b, i, el in st:
+            rel = {v["n"] for v in vars_in(el["e"].get("r"))}
+            grew = True
+            while grew:
+                grew = False
+                for nm in list(rel):
+                    for x in codecrules._assignments(po, nm):
+                        for v in vars_in(x[3]):
+                            if v["n"] not in rel and v.get("vk") == "local":
+                                rel.add(v["n"])
+                                grew = True
+            bad = None
+            # a test of the converted number against zero whose zero edge cannot reach the store while its other edge can
+            for blk in po.blocks.values():
+                br = po.branch(blk)
+                if not br or br[1] is None or br[2] is None:
+                    continue
+                for c3, p3 in atoms(br[0], True):
+                    op, l3, r3 = norm_cmp(c3, p3)
+                    if not (is_var(strip(l3)) and strip(l3)["n"] in rel):
+                        continue
+                    v = const_val(r3) if r3 is not None else None
+                    zero_edge = None
+                    if (op == "==" and v == 0) or op == "false" or (op == "<" and v == 1) or (op == "<=" and v == 0):
+                        zero_edge, other = br[1], br[2]
+                    elif (op == "!=" and v == 0) or op == "truth" or (op == ">" and v == 0) or (op == ">=" and v == 1):
+                        zero_edge, other = br[2], br[1]
+                    if zero_edge is None:
+                        continue
+                    rz = reach_avoiding(po, zero_edge, (), None, 0)
+                    ro = reach_avoiding(po, other, (), None, 0)
+                    zr = zero_edge == b.id or b.id in rz
+                    orr = other == b.id or b.id in ro
+                    if orr and not zr:
+                        bad = render(c3)
+            if bad:
+                r.viol("system ndots 0 accepted", po.name, po.loc(el), "sysconfig->ndots is only stored when '%s': 'options ndots:0' (resolv.conf, RES_OPTIONS) is dropped as malformed, ndots stays 1 and a "
+                       "dot-less name is tried after the search domains instead of first" % bad)
+            else:
+                r.ok("system ndots 0 accepted", po.loc(el))
     # the comparison that uses it is `ndots >= channel->ndots` (checked by R-C12-ORDER); the default is 1
     d = prog.func("ares_init_by_sysconfig")
     dv = [el for _, _, el in d.elements() if el["k"] == "asg" and render(strip(el["e"]["l"])).endswith("ndots") and const_val(el["e"].get("r")) is not None]
